@@ -254,6 +254,7 @@ func treeLevelCase(r *corr.Run) {
 	in := newInterner(append(allIds, "zz-absent"))
 	delete(in.rank, "")
 	tr := &objecttree.Tree{}
+	rootMoved := false
 	var trace []string
 	// first Add: the root alone or together with others (empty-tree branch)
 	rest := append([]*tnode{}, nodes[1:]...)
@@ -356,9 +357,12 @@ func treeLevelCase(r *corr.Run) {
 			r.Violate("C06", "", "treelevel.append.prefix", fmt.Sprintf("Tree.Add reported Append but %s is not a prefix of %s", join(before), join(it)), trace)
 			return
 		}
+		// (only while the root has not moved: on non-honest DAGs - e.g. a redundant parent edge to an ancestor
+		// of the new root - the order from a later root need not be the restriction of the order ids assigned
+		// from the earlier root; see notes/areas/tree.md)
 		byOrder := append([]string{}, it...)
 		sort.SliceStable(byOrder, func(i, j int) bool { return tr.Get(byOrder[i]).OrderId < tr.Get(byOrder[j]).OrderId })
-		if !eqStr(byOrder, it) {
+		if !rootMoved && !eqStr(byOrder, it) {
 			r.Violate("C06", "", "treelevel.orderid", fmt.Sprintf("sorting by order id gives %s, iteration is %s", join(byOrder), join(it)), trace)
 			return
 		}
@@ -407,6 +411,7 @@ func treeLevelCase(r *corr.Run) {
 			r.Count("treelevel.reduce")
 			if it2[0] != it[0] {
 				r.Count("treelevel.reduce.moved")
+				rootMoved = true
 			}
 			if !r.Check("C06", "treelevel.reduce", trace, rmodel, rimpl) {
 				return
